@@ -53,6 +53,7 @@ SHARD_TIMEOUT = {"quick": 300, "thorough": 1500}
 NSHARDS = 16
 F3_EVICT = "lru_cache:entry-evicted-while-referenced"
 F3_RETRY = "lru_cache:retry-after-failed-call-under-finite-maxsize"
+F16_CLEAR = "lru_cache:cache_clear-with-calls-in-flight-under-finite-maxsize"
 KEYS = [1, 2, 3, "a", "b", 1.0, True]  # the last two alias 1 unless typed
 
 
@@ -250,8 +251,11 @@ def gen_conc(rng: random.Random, cfgs: list[str]) -> dict:
                       "mode": rng.choice(["scope", "scope", "native", "native-in-group"])})  # fmt: skip
 
     ttl = rng.choice([None, None, None, 3])
+    clears = [[rng.randint(0, 9), rng.choice(["before", "after"])]
+              for _ in range(rng.choice([0, 0, 0, 1, 2]))]  # fmt: skip
     return {"stratum": "conc", "cfg": rng.choice(cfgs), "maxsize": maxsize, "nkeys": nkeys,
-            "ttl": ttl, "always_checkpoint": rng.random() < 0.3, "calls": calls}  # fmt: skip
+            "ttl": ttl, "always_checkpoint": rng.random() < 0.3, "calls": calls,
+            "clears": clears}  # fmt: skip
 
 
 def stratum_of(case: dict) -> str:
@@ -298,6 +302,8 @@ def execute_conc(case: dict) -> dict:
 
         keys_called: set = set()
         conc = {"seen": False}
+        clears: list = []  # seq numbers of cache_clear() calls
+        call_of: dict = {}  # task -> seq of the call it is making (who triggers an execution)
 
         def note_preconditions(seq: int) -> None:
             """(a) eviction pressure (more distinct keys called than maxsize) together with
@@ -307,6 +313,11 @@ def execute_conc(case: dict) -> dict:
                     f3["evict"] = seq
 
         def f3_mech() -> str | None:
+            if ms is not None and f3.get("clear") is not None:
+                # F16: cache_clear() detaches the dict and zeroes the size counter while a
+                # call that already picked up the old dict still counts itself afterwards
+                return F16_CLEAR
+
             if stratum != "S3":
                 return None
 
@@ -323,7 +334,8 @@ def execute_conc(case: dict) -> dict:
             running[k] = running.get(k, 0) + 1
             lst = execs.setdefault(k, [])
             n = len(lst)
-            rec = {"n": n, "status": "running", "start": h.ev(f"k{k}", "exec-start", n)}
+            rec = {"n": n, "status": "running", "start": h.ev(f"k{k}", "exec-start", n),
+                   "call": call_of.get(asyncio.current_task(), 0)}  # fmt: skip
             lst.append(rec)
             # --- F3 preconditions (DESIGN.md C20/S3), recorded at the start of a miss
             note_preconditions(rec["start"])
@@ -333,7 +345,14 @@ def execute_conc(case: dict) -> dict:
                     f3["retry"] = rec["start"]
 
             if running[k] > 1:
-                viol.append(("overlapping-executions-of-one-key", {"key": k}, f3_mech()))
+                # (after a cache_clear() a fresh computation may start while one that
+                # began before the clear is still running in the detached cache)
+                older = [r for r in lst if r is not rec and r["status"] == "running"]
+                if all(any(min(r["call"], rec["call"]) < c < max(r["call"], rec["call"])
+                           for c in clears) for r in older):  # fmt: skip
+                    window("overlap_across_cache_clear")
+                else:
+                    viol.append(("overlapping-executions-of-one-key", {"key": k}, f3_mech()))
 
             try:
                 work, fail = plans.get(k, [(1, False)]).pop(0) if plans.get(k) else (1, False)
@@ -383,6 +402,7 @@ def execute_conc(case: dict) -> dict:
             keys_called.add(k)
             inflight[a] = k
             call_seq = h.ev(a.name, "call", k)
+            call_of[asyncio.current_task()] = call_seq
             note_preconditions(call_seq)
             try:
                 tok = await fn(k)
@@ -420,6 +440,12 @@ def execute_conc(case: dict) -> dict:
                              {"key": k, "tok": tok}, None))  # fmt: skip
                 return
 
+            last_clear = max((c for c in clears if c < call_seq), default=None)
+            if last_clear is not None and lst[tok[1]]["call"] < last_clear:
+                viol.append(("result-computed-before-cache_clear-served-to-a-later-call",
+                             {"key": k, "tok": tok, "exec_start": lst[tok[1]]["start"],
+                              "clear": last_clear, "call": call_seq}, None))  # fmt: skip
+
             if tok[1] < latest_ok_before:
                 viol.append(("stale-token", {"key": k, "tok": tok,
                                              "latest_ok_before_call": latest_ok_before},
@@ -456,6 +482,19 @@ def execute_conc(case: dict) -> dict:
 
                 h.add_agent(c["cancel"][0], c["cancel"][1], fire, f"cancel->{i}")
 
+        for at, place in case.get("clears", []):
+            def do_clear() -> None:
+                if inflight:
+                    window("cache_clear_while_calls_in_flight")
+                    out["nontrivial"] = True
+                    if f3.get("clear") is None:
+                        f3["clear"] = h.seq
+
+                clears.append(h.ev("agent", "cache_clear"))
+                fn.cache_clear()
+
+            h.add_agent(at, place, do_clear, "cache_clear")
+
         await run_actors(h, [(a, body) for a in actors])
         for _ in range(3):
             await checkpoint()
@@ -469,7 +508,7 @@ def execute_conc(case: dict) -> dict:
                 viol.append(("retention-above-maxsize", {"retained": r, "maxsize": ms},
                              f3_mech()))  # fmt: skip
 
-        if stratum == "S2" and case["ttl"] is None:
+        if stratum == "S2" and case["ttl"] is None and not clears:
             for k, lst in execs.items():
                 oks = [r for r in lst if r["status"] == "ok"]
                 if len(oks) > 1:
